@@ -36,18 +36,18 @@ for attempt in range(3):
     try: passed|=passed_in(j2)
     except Exception: pass
     miss=sorted(want-passed)
-    if miss:
-        # still missing: does the same test fail on the unchanged tree right now (machine load, not the change)?
-        names=sorted({m.split("::")[-1].split("[")[0] for m in miss})
-        j3=sys.argv[1]+".3"
-        subprocess.run(["/venv/bin/python","-m","pytest","-q","-p","no:cacheprovider","--timeout=900","--continue-on-collection-errors",
-                        "-k"," or ".join(names),"--junitxml="+j3],cwd="/repo",stdout=subprocess.DEVNULL,stderr=subprocess.DEVNULL)
-        try:
-            base_pass=passed_in(j3)
-            flaky=[m for m in miss if m not in base_pass]
-            miss=[m for m in miss if m in base_pass]
-            if flaky: print("load_flaky_on_unchanged_tree_too="+",".join(f.split("::")[-1] for f in flaky), end=" ")
-        except Exception: pass
+if miss:
+    # still missing: does the same test fail on the unchanged tree right now (machine load, not the change)?
+    names=sorted({m.split("::")[-1].split("[")[0] for m in miss})
+    j3=sys.argv[1]+".3"
+    subprocess.run(["/venv/bin/python","-m","pytest","-q","-p","no:cacheprovider","--timeout=900","--continue-on-collection-errors",
+                    "-k"," or ".join(names),"--junitxml="+j3],cwd="/repo",stdout=subprocess.DEVNULL,stderr=subprocess.DEVNULL)
+    try:
+        base_pass=passed_in(j3)
+        flaky=[m for m in miss if m not in base_pass]
+        miss=[m for m in miss if m in base_pass]
+        if flaky: print("load_flaky_on_unchanged_tree_too="+",".join(sorted({f.split("::")[-1] for f in flaky})), end=" ")
+    except Exception: pass
 print(f"suite_missing={len(miss)}" + ("" if not miss else ":"+",".join(m.split('::')[-1] for m in miss[:4])))
 PY
 )
